@@ -945,6 +945,16 @@ def gen_invalid(ctx):
         bad(16, mk_field("oc%d" % k, "arb", 4, [(0, 3)], count=4, stride=5, order=order), "array exceeds base, argument order " + order)
         good(16, mk_field("ol%d" % k, "arb", 2, [(0, 0), (2, 2)], count=2, stride=4, order=order), "list array, argument order " + order)
         bad(16, mk_field("om%d" % k, "arb", 4, [(0, 1), (4, 5)], count=3, stride=6, order=order), "list array exceeds base, argument order " + order)
+    # literals written with leading zeros are decimal (`str::parse::<usize>`), not octal
+    def lz(f, old_new):
+        for a, b in old_new:
+            f["attrs"][0] = f["attrs"][0].replace(a, b)
+        return f
+    good(16, lz(mk_field("z1", "arb", 4, [(10, 13)]), [("10..=13", "010..=013")]), "leading zeros in a range")
+    good(16, lz(mk_field("z2", "bool", 1, [(9, 9)]), [("bit(9", "bit(009")]), "leading zeros in a bit index")
+    good(32, lz(mk_field("z3", "arb", 2, [(8, 9)], count=2, stride=10), [("8..=9", "08..=09"), ("stride = 10", "stride = 010")]), "leading zeros in range and stride")
+    good(32, lz(mk_field("z4", "arb", 3, [(10, 11), (20, 20)]), [("10..=11", "010..=011"), ("20", "020")]), "leading zeros in a list")
+    bad(16, lz(mk_field("z5", "arb", 4, [(13, 16)]), [("13..=16", "013..=016")]), "leading zeros, range exceeds the base")
     # arrays of fewer than two elements: single range and range list alike
     for cnt in [0, 1]:
         bad(16, mk_field("c%d" % cnt, "arb", 4, [(0, 3)], count=cnt), "array of %d elements" % cnt)
